@@ -1,7 +1,5 @@
 //! Common mutation components.
 
-use std::marker::PhantomData;
-
 use eyre::{ensure, WrapErr};
 use itertools::multizip;
 use rand::{
@@ -18,7 +16,7 @@ use crate::{
         mutation::{functional as f, MutationRate, MutationStrength},
         Component,
     },
-    identifier::{Global, Identifier},
+    identifier::{Global, Identifier, PhantomId},
     population::AsSolutionsMut,
     problems::{LimitedVectorProblem, VectorProblem},
     State,
@@ -42,7 +40,8 @@ pub struct NormalMutation<I: Identifier = Global> {
     pub std_dev: f64,
     /// Mutation rate.
     pub rm: f64,
-    phantom: PhantomData<I>,
+    #[serde(skip_deserializing)]
+    phantom: PhantomId<I>,
 }
 
 impl<I: Identifier> NormalMutation<I> {
@@ -50,7 +49,7 @@ impl<I: Identifier> NormalMutation<I> {
         Self {
             std_dev,
             rm,
-            phantom: PhantomData,
+            phantom: PhantomId::default(),
         }
     }
 
@@ -128,7 +127,8 @@ pub struct UniformMutation<I: Identifier = Global> {
     pub bound: f64,
     /// Mutation rate.
     pub rm: f64,
-    phantom: PhantomData<I>,
+    #[serde(skip_deserializing)]
+    phantom: PhantomId<I>,
 }
 
 impl<I: Identifier> UniformMutation<I> {
@@ -136,7 +136,7 @@ impl<I: Identifier> UniformMutation<I> {
         Self {
             bound,
             rm,
-            phantom: PhantomData,
+            phantom: PhantomId::default(),
         }
     }
 
@@ -211,14 +211,15 @@ where
 pub struct BitFlipMutation<I: Identifier = Global> {
     /// Probability of flipping a bit.
     pub rm: f64,
-    phantom: PhantomData<I>,
+    #[serde(skip_deserializing)]
+    phantom: PhantomId<I>,
 }
 
 impl<I: Identifier> BitFlipMutation<I> {
     pub fn from_params(rm: f64) -> Self {
         Self {
             rm,
-            phantom: PhantomData,
+            phantom: PhantomId::default(),
         }
     }
 
@@ -280,14 +281,15 @@ where
 pub struct PartialRandomSpread<I: Identifier = Global> {
     /// Mutation rate.
     pub rm: f64,
-    phantom: PhantomData<I>,
+    #[serde(skip_deserializing)]
+    phantom: PhantomId<I>,
 }
 
 impl<I: Identifier> PartialRandomSpread<I> {
     pub fn from_params(rm: f64) -> Self {
         Self {
             rm,
-            phantom: PhantomData,
+            phantom: PhantomId::default(),
         }
     }
 
@@ -356,14 +358,15 @@ where
 #[derive(Clone, Serialize, Deserialize)]
 pub struct ScrambleMutation<I: Identifier = Global> {
     pub rm: f64,
-    phantom: PhantomData<I>,
+    #[serde(skip_deserializing)]
+    phantom: PhantomId<I>,
 }
 
 impl<I: Identifier> ScrambleMutation<I> {
     pub fn from_params(rm: f64) -> Self {
         Self {
             rm,
-            phantom: PhantomData,
+            phantom: PhantomId::default(),
         }
     }
 
@@ -438,7 +441,8 @@ pub struct PartialRandomBitstring<I: Identifier = Global> {
     pub p: f64,
     /// Mutation rate.
     pub rm: f64,
-    phantom: PhantomData<I>,
+    #[serde(skip_deserializing)]
+    phantom: PhantomId<I>,
 }
 
 impl<I: Identifier> PartialRandomBitstring<I> {
@@ -446,7 +450,7 @@ impl<I: Identifier> PartialRandomBitstring<I> {
         Self {
             p,
             rm,
-            phantom: PhantomData,
+            phantom: PhantomId::default(),
         }
     }
 
